@@ -239,10 +239,11 @@ func maybeYield() {
 	}
 }
 
-func (m *RWMutex) Lock()    { maybeYield(); m.mu.Lock(); maybeYield() }
-func (m *RWMutex) Unlock()  { m.mu.Unlock(); maybeYield() }
-func (m *RWMutex) RLock()   { maybeYield(); m.mu.RLock(); maybeYield() }
-func (m *RWMutex) RUnlock() { m.mu.RUnlock(); maybeYield() }
+func (m *RWMutex) Lock()         { maybeYield(); m.mu.Lock(); maybeYield() }
+func (m *RWMutex) Unlock()       { m.mu.Unlock(); maybeYield() }
+func (m *RWMutex) RLock()        { maybeYield(); m.mu.RLock(); maybeYield() }
+func (m *RWMutex) RUnlock()      { m.mu.RUnlock(); maybeYield() }
+func (m *RWMutex) TryLock() bool { return m.mu.TryLock() }
 
 // Input / Output: concrete (corpus) mode.  Natively Input reads VERIF_INPUT
 // and Output prints a line.
